@@ -2,7 +2,9 @@
 //
 //	c02 extract   truth tables of the engine's own 3VL operators, comparison operators, IN-list and
 //	              BETWEEN, dumped by running the freshly compiled sql/expression code on the
-//	              domain {NULL,0,1,2} → Gms/Generated/C02.lean (closed by `decide` against M1)
+//	              domain {NULL,0,1,2} → Gms/Generated/C02.lean (closed by `decide` against M1);
+//	              per-row values of correlated IN / EXISTS / scalar subqueries over 24 outer rows
+//	              in 72 scan orders, dumped by running the engine (corrfacts.go)
 //	c02 run       generated databases + query terms: SQL text on the real engine, the term on the
 //	              Lean reference semantics (drv_c02), canonical result multisets/sequences diffed
 //	c02 sql       run the statements on stdin on a fresh engine (manual replay of witnesses)
@@ -92,7 +94,8 @@ func leanOpt(v interface{}) (string, error) {
 func extract(a hx.ExtractArgs) error {
 	ctx := sql.NewEmptyContext()
 	lf := hx.NewLeanFile("Gms.Generated.C02", "sql/expression/logic.go", "sql/expression/boolean.go", "sql/expression/comparison.go",
-		"sql/expression/in.go", "sql/expression/between.go", "sql/expression/isnull.go", "sql/expression/istrue.go")
+		"sql/expression/in.go", "sql/expression/between.go", "sql/expression/isnull.go", "sql/expression/istrue.go",
+		"sql/plan/insubquery.go", "sql/plan/subquery.go", "sql/rowexec (correlated subqueries run on the engine)")
 	lf.Comment("Truth tables obtained by RUNNING the freshly compiled sql/expression operators on {NULL,0,1,2}.")
 	lf.Comment("Entry: (operands…, result); NULL = none; TRUE/FALSE = some 1 / some 0.")
 	eval := func(e sql.Expression) (string, error) {
@@ -174,6 +177,9 @@ func extract(a hx.ExtractArgs) error {
 			return err
 		}
 	}
+	if err := corrFacts(lf); err != nil {
+		return err
+	}
 	return lf.Write(a.Out)
 }
 
@@ -196,7 +202,9 @@ func run(a hx.RunArgs) error {
 	defer out.Close()
 	out.Rule = "a generated database (1-3 tables, <=3 columns, <=6 rows, NULLs, duplicate rows, int and varchar columns, optional secondary index) " +
 		"and a type-directed random query term (depth <=4) printed as SQL for the engine and as an s-expression for the Lean reference semantics; " +
-		"a case is non-trivial when the engine returned at least one row, the query has at least two relational operators and the data has a NULL"
+		"a case is non-trivial when the engine returned at least one row, the query has at least two relational operators and the data has a NULL; " +
+		"plus a correlated-subquery stream: outer table t0(probe, key, x) and inner tables t1/t2(member, key, x) whose key groups differ in emptiness, NULL-ness and " +
+		"containing the probe value, probed by [NOT] IN / [NOT] EXISTS / scalar aggregates correlated on the key, as WHERE predicate or select item, in random scan orders"
 	r := hx.NewRand(a.Seed).Fork() // (hx.NewRand(s+1) is hx.NewRand(s) advanced by one draw: fork to decorrelate seeds)
 	nDb, perDb := 60, 12
 	if a.Thorough {
@@ -234,5 +242,12 @@ func run(a hx.RunArgs) error {
 	for k, v := range g.Stats {
 		out.StatN(k, v)
 	}
+	// correlated-subquery stream (corr.go): its own generator state, so that the stream above is
+	// the same sample with and without it
+	nCorrDb, perCorrDb := 40, 10
+	if a.Thorough {
+		nCorrDb, perCorrDb = 500, 12
+	}
+	corrStream(&rn, hx.NewRand(a.Seed+0x5bd1e995).Fork(), out, nCorrDb, perCorrDb)
 	return nil
 }
